@@ -620,7 +620,7 @@ def main(rep, tier, only):
     db = load.load(tier, lib=False, drivers=["drv_oev"])
     rep.extra.update(db.stats())
     spec = json.load(open(os.path.join(P.VERIF, "specs", "C04-tables.json")))
-    cfg = sx.Config(inline_prefixes=INLINE, loop_bound=2)
+    cfg = sx.Config(inline_prefixes=INLINE, loop_bound=2, std_search=True)
     rep.rule("TABLE", "decision table of the implementation (continuation invoked, how often, with which payload, "
                       "result constructor) equals the specification table, row by row, per value category", floor=60)
     rep.rule("TAG", "no path reaches get_unsafe / get_success_unsafe / get_failure_unsafe / variant::get_unsafe under a "
